@@ -13,12 +13,13 @@ ASSUMPTIONS = ["timestamps are naive datetimes at second resolution; process TZ=
                "integer magnitudes below 2^53"]
 PARTIAL = ""
 _case = om.make_case(ID, tf=True, fill=False)
+_case_life = om.make_case(ID, tf=True, fill=False, life=True)   # what a lifespan manager retains are still whole resampled buckets
 
 
 def oracle(ctx):
     n = (300 if ctx["tier"] == "quick" else 3000) * ctx["boost"]
     sz = {"size": 60 if ctx["tier"] == "quick" else 300}
-    return cm.merge_results(cm.run_cases(_case, ctx["seed"], ID, n, sz),
+    return cm.merge_results(cm.run_cases(_case, ctx["seed"], ID, n, sz), cm.run_cases(_case_life, ctx["seed"], ID + "l", n // 3, sz),
                             cm.run_cases(om.case_hexital_tfs, ctx["seed"], ID + "hx", n // 3, sz))
 
 
